@@ -110,6 +110,14 @@ def gen_optstr(rng):
         s = b' pad=' + b'x' * n + (b', k=v' if rng.chance(0.5) else b'')
     elif k == 4 and s:
         s = s + b'\r'            # a stray CR at the end of the line
+    elif k == 5 and rng.chance(0.6):
+        # long *malformed* lines (the refusal has to cope with them too):
+        # no blank after the colon, a symbol outside the grammar at the
+        # very end, no '=' at all, one long key
+        n = rng.choice([90, 150, 161, 200, 400, 9000])
+        s = rng.choice([b'pad=' + b'x' * n, b' pad=' + b'x' * n + b'+',
+                        b' ' + b'x' * n, b' ' + b'k' * n + b'=v, =',
+                        b' pad=' + b'%' * n, b'=' * n])
 
     if rng.chance(0.03):
         s = b''                 # the bare header
@@ -206,6 +214,7 @@ def generate(rng, tier, cls):
             'short_hdr': rng.randint(0, 999) if rng.chance(0.12) else None,
             'shadow': rng.below(50) if rng.chance(0.08) else None,
             'twice': rng.chance(0.12),
+            'probe': rng.chance(0.06),
             'blanks': rng.choice([0] * 20 + [1, 3, 200, 1200, 5000]),
             'lead': rng.choice([0] * 12 + [1, 2]),
             'mutate': rng.randint(1, 5) if rng.chance(0.08) else None,
@@ -319,7 +328,8 @@ def execute(scn, L):
                                       data, scn['short_hdr'])}
                                   if isinstance(scn.get('short_hdr'), int)
                                   else {}, shadow=scn.get('shadow'),
-                                  mutate=scn.get('mutate')))
+                                  mutate=scn.get('mutate'),
+                                  probe_iter=scn.get('probe')))
     out.absorb(w)
     out.case_key = pipe.scn_digest([ctx, optstr.hex(), crlf, own_lf])
     out.nontrivial = bool(optstr)
